@@ -52,7 +52,7 @@ def strategy(tier):
         "fault_kind": st.sampled_from(["msg", "msg", "msg", "noargs", "stopiteration", "assert", "keyerror",
                                        "odd-message", "non-str-arg", "base", "bad-request", "bad-request"]),
         "drive": st.sampled_from(["start", "bounded", "step", "mixed"]),
-        "cuts": st.lists(st.integers(1, 9), min_size=1, max_size=4),
+        "cuts": st.lists(st.integers(0, 9), min_size=1, max_size=4),
         "mix": st.lists(st.sampled_from(["step", "run", "step", "start"]), min_size=1, max_size=10),
     })
 
@@ -150,6 +150,11 @@ def _one_run(out, prog, strat, drive, cuts, mix, tag, log_level=None, prev=None,
                     out.label("paused-by-fault")
                     if c[0] == "start":
                         cmds.append(["start"])
+                    else:
+                        # resume with an inclusive bound equal to the clock: exactly the remaining events of this
+                        # instant run (a zero-length run is not a no-op when events are pending at the clock)
+                        cmds.insert(i, ["run", 0])
+                        out.label("resumed-with-bound-equal-to-clock")
             # compare after every command
             if h.model.trace != ref.trace:
                 j = 0
